@@ -77,10 +77,10 @@ def Kind.layoutOk (k : Kind) (keys : List Key) : Bool :=
   | .index | .branch => decide (keys = (List.range keys.length).map Key.ith) && !keys.isEmpty
   | _ => keys.isEmpty
 
-/-- invariant of the scalar state of a leaf: `entries` is a finite non-negative number; an empty
+/-- numeric part of the invariant of the scalar state of a leaf: `entries` is a finite non-negative number; an empty
 leaf is in its initial state; a Deviate has a finite variance accumulator exactly when its mean is
 finite; Bag keys are strictly sorted. -/
-def leafGood (k : Kind) (e : Val) (st : St) : Bool :=
+def leafGoodCore (k : Kind) (e : Val) (st : St) : Bool :=
   St.fits k st &&
   (match e with
    | .fin q => decide (0 ≤ q) && (if q = 0 then decide (st = St.zero k) else
@@ -89,6 +89,24 @@ def leafGood (k : Kind) (e : Val) (st : St) : Bool :=
         | .bag m => bagSorted m
         | _ => true))
    | _ => false)
+
+/-- a Bag key has the shape its range prescribes (what `bagKeyOf` produces): strings for "S", numbers
+for "N", vectors of length `n` for "N<n>" -/
+def BKey.inRange : BagRange → BKey → Bool
+  | .S, .str _ => true
+  | .N, .num _ => true
+  | .Nn n, .vec l => decide (l.length = n)
+  | _, _ => false
+
+def bagKeysOk (r : BagRange) (m : List (BKey × Val)) : Bool := m.all (fun kv => kv.1.inRange r)
+
+/-- Bag keys are in the range of the Bag; vacuous for the other kinds. -/
+def leafKeysOk : Kind → St → Bool
+  | .bag _ r, .bag m => bagKeysOk r m
+  | _, _ => true
+
+/-- invariant of the scalar state of a leaf (`leafGoodCore`) together with well-typed Bag keys -/
+def leafGood (k : Kind) (e : Val) (st : St) : Bool := leafGoodCore k e st && leafKeysOk k st
 
 mutual
 /-- `t` is an empty tree: what `zero` returns (and what constructors build). -/
